@@ -457,7 +457,10 @@ impl Gen {
                 }
             }
             16 => {
-                if has1 && self.rng.chance(1, 2) {
+                if split && self.rng.chance(1, 3) {
+                    // consume the map itself while a resize is pending (a clone never is mid-resize)
+                    (0, Op::IntoIter { take: match self.rng.below(3) { 0 => 0, 1 => usize::MAX, _ => self.rng.below(len as u64 + 1) as usize } })
+                } else if has1 && self.rng.chance(1, 2) {
                     let l1 = w.map(1).map_or(0, |m| m.len());
                     (1, Op::IntoIter { take: match self.rng.below(3) { 0 => 0, 1 => usize::MAX, _ => self.rng.below(l1 as u64 + 1) as usize } })
                 } else {
